@@ -121,13 +121,18 @@ func (e *Exec) keccakTerm(arr, off, n *Term, max int) *Term {
 		return t
 	}
 	if c, ok := n.ConstU64(); ok {
-		if c > 256 {
-			panic(unsupported("keccak of more than 256 concrete bytes"))
+		if c > 1024 {
+			panic(unsupported("keccak of more than 1024 concrete bytes"))
 		}
 		return mk(int(c))
 	}
 	if max > 136 {
-		panic(unsupported(fmt.Sprintf("keccak of symbolic length with bound %d", max)))
+		// long inputs: case-split the length instead of building one term per length
+		c := e.concretize(n, "keccak input length")
+		if c > 1024 {
+			panic(unsupported(fmt.Sprintf("keccak of %d bytes", c)))
+		}
+		return mk(int(c))
 	}
 	r := mk(max)
 	for k := max - 1; k >= 0; k-- {
@@ -557,6 +562,17 @@ func (g *Engine) registerIntrinsics() {
 	I["fmt.Errorf"] = func(e *Exec, fn *ssa.Function, a []Value) Value { return e.errorsNew(e.freshStr("fmt.Errorf", 8)) }
 	I["fmt.Sprintf"] = func(e *Exec, fn *ssa.Function, a []Value) Value { return e.freshStr("fmt.Sprintf", 8) }
 	I["fmt.Sprint"] = I["fmt.Sprintf"]
+	// encoders and decoders whose output content no property here depends on: opaque, total
+	I["encoding/json.Marshal"] = func(e *Exec, fn *ssa.Function, a []Value) Value {
+		s := e.freshStr("json.Marshal", 4)
+		return Tuple{e.newBytes(s.arr, s.off, s.len, 4, "json"), Iface{}}
+	}
+	I["github.com/ethereum/go-ethereum/accounts/abi.UnpackRevert"] = func(e *Exec, fn *ssa.Function, a []Value) Value {
+		if e.branch(e.fresh("abi.UnpackRevert.ok", SortBool)) {
+			return Tuple{e.freshStr("revertreason", 4), Iface{}}
+		}
+		return Tuple{e.strConst(""), e.errorsNew(e.strConst("invalid data for unpacking"))}
+	}
 	I["fmt.Println"] = func(e *Exec, fn *ssa.Function, a []Value) Value {
 		return Tuple{e.tb.BVu(0, 64), Iface{}}
 	}
@@ -587,6 +603,32 @@ func (g *Engine) registerIntrinsics() {
 	I["(*sync.RWMutex).RUnlock"] = I["(*sync.Mutex).Lock"]
 	for _, n := range []string{"Error", "Warn", "Info", "Debug", "Trace", "Crit"} {
 		I["github.com/ethereum/go-ethereum/log."+n] = func(e *Exec, fn *ssa.Function, a []Value) Value { return nil }
+	}
+
+	// ------------------------------------------------------------ standard precompile kernels: opaque
+	// (hash, curve, modexp kernels are outside the encoding; their callers see an arbitrary
+	// output and an arbitrary success/failure, named by call order so that two relationally
+	// compared executions receive the same answers)
+	for _, pkg := range []string{"github.com/artela-network/artela-evm/vm", "github.com/ethereum/go-ethereum/core/vm"} {
+		for _, ty := range []string{"ecrecover", "sha256hash", "ripemd160hash", "bigModExp", "blake2F",
+			"bn256AddByzantium", "bn256AddIstanbul", "bn256PairingByzantium", "bn256PairingIstanbul",
+			"bn256ScalarMulByzantium", "bn256ScalarMulIstanbul", "bls12381G1Add", "bls12381G1Mul", "bls12381G1MultiExp",
+			"bls12381G2Add", "bls12381G2Mul", "bls12381G2MultiExp", "bls12381MapG1", "bls12381MapG2", "bls12381Pairing"} {
+			ty := ty
+			I["(*"+pkg+"."+ty+").Run"] = func(e *Exec, fn *ssa.Function, a []Value) Value {
+				s := e.freshStr("precompile."+ty+".out", 8)
+				out := e.newBytes(s.arr, s.off, s.len, 8, "precompile-out")
+				if e.branch(e.fresh("precompile."+ty+".ok", SortBool)) {
+					return Tuple{out, Iface{}}
+				}
+				return Tuple{Slice{off: e.tb.BVu(0, 64), len: e.tb.BVu(0, 64), cap: e.tb.BVu(0, 64)}, e.errorsNew(e.strConst("precompile failed"))}
+			}
+			if ty == "bigModExp" || ty == "blake2F" {
+				I["(*"+pkg+"."+ty+").RequiredGas"] = func(e *Exec, fn *ssa.Function, a []Value) Value {
+					return e.fresh("precompile."+ty+".gas", 64)
+				}
+			}
+		}
 	}
 
 	// ------------------------------------------------------------ hashing
